@@ -14,6 +14,10 @@
       post (exp of posteriors()), conf (confidence()), tconf (transcript_confidence of each hypothesis), tabsent (of a transcript
       not in the bag), sumdev = |sum of exp(posteriors) - 1| and over in 1e-12 units; the bag is built a second time with another
       constant: dshift = largest change of any value, confdev = |confidence() - largest posterior| (1e-12 units).
+      sumdev / over / confdev are maxima over a HISTORY of queries of the same bag object: after lm_weight was changed and
+      changed back, and (mutated) after the caller modified in place the lists posteriors() / total_scores() had handed to it
+      (exponentiated, reversed, sorted, appended to, truncated, cleared): the posteriors of the design module are a function
+      of the bag's hypotheses only, so clauses 1, 2, 3, 8 apply unchanged to every later answer.
 
    Property-level clauses (statement of C16; a failure is a VIOLATION): 1 no exception, 2 range [0,1] within 1e-9, 3 posteriors
    sum to 1 within 1e-9 * n, 4 shift invariance with the alignment held fixed within 1e-9 (compute_line_confidence only when the
